@@ -4,6 +4,7 @@
 package whr
 
 import (
+	"database/sql"
 	"fmt"
 	"reflect"
 	"sort"
@@ -301,9 +302,18 @@ type Unit struct {
 	Args    []interface{}          `json:"args,omitempty"`
 	Named   map[string]interface{} `json:"named,omitempty"`
 	Members []int                  `json:"members,omitempty"` // atom ids (map: sorted by column name; struct: schema order)
-	CE      *CExpr                 `json:"ce,omitempty"`
-	Calls   []Call                 `json:"calls,omitempty"`
-	Tree    *BTree                 `json:"tree,omitempty"`
+	// Via: the Go value that carries the unit to gorm when it is not the default one.
+	//  map:    "" map[string]interface{} | colarg Where("col", v) | mapss map[string]string |
+	//          mapii map[interface{}]interface{} | pk Where(k) | pkstr Where("k") | pkslice Where([]int64)
+	//  struct: "" | sel (the members' columns selected by name: zero values count) |
+	//          slice (a slice of structs, Elems = members per element)
+	//  named:  "" map | sqlnamed sql.Named(...) arguments
+	//  empty_map: "" | mapss | nilmap ; empty_struct: "" | slice ; group with no calls: empty group
+	Via   string  `json:"via,omitempty"`
+	Elems [][]int `json:"elems,omitempty"`
+	CE    *CExpr  `json:"ce,omitempty"`
+	Calls []Call  `json:"calls,omitempty"`
+	Tree  *BTree  `json:"tree,omitempty"`
 }
 
 type Call struct {
@@ -466,6 +476,31 @@ func StructOf(members []Atom) T {
 	return t
 }
 
+// StructSlice: a slice of struct conditions (every non-zero field of every element is ANDed).
+func StructSlice(elems [][]int, byID map[int]Atom) interface{} {
+	if UseSoft {
+		out := []TS{}
+		for _, e := range elems {
+			ms := []Atom{}
+			for _, id := range e {
+				ms = append(ms, byID[id])
+			}
+			t := StructOf(ms)
+			out = append(out, TS{Age: t.Age, Name: t.Name, Nick: t.Nick})
+		}
+		return out
+	}
+	out := []T{}
+	for _, e := range elems {
+		ms := []Atom{}
+		for _, id := range e {
+			ms = append(ms, byID[id])
+		}
+		out = append(out, StructOf(ms))
+	}
+	return out
+}
+
 var structOrder = map[string]int{"age": 0, "name": 1, "nick": 2}
 
 func (ce *CExpr) Build(byID map[int]Atom) clause.Expression {
@@ -506,8 +541,45 @@ func (u Unit) QueryArgs(db *gorm.DB, byID map[int]Atom) (interface{}, []interfac
 	case "raw", "rawargs", "empty_string":
 		return u.Tmpl, u.Args
 	case "named":
+		if u.Via == "sqlnamed" {
+			keys := []string{}
+			for k := range u.Named {
+				keys = append(keys, k)
+			}
+			sort.Strings(keys)
+			args := []interface{}{}
+			for _, k := range keys {
+				args = append(args, sql.Named(k, u.Named[k]))
+			}
+			return u.Tmpl, args
+		}
 		return u.Tmpl, []interface{}{u.Named}
 	case "map", "empty_map":
+		switch u.Via {
+		case "colarg":
+			a := byID[u.Members[0]]
+			return a.Col, []interface{}{a.MapValue()}
+		case "mapss":
+			m := map[string]string{}
+			for _, id := range u.Members {
+				m[byID[id].Col] = byID[id].S
+			}
+			return m, nil
+		case "mapii":
+			m := map[interface{}]interface{}{}
+			for _, id := range u.Members {
+				m[byID[id].Col] = byID[id].MapValue()
+			}
+			return m, nil
+		case "pk":
+			return byID[u.Members[0]].I, nil
+		case "pkstr":
+			return fmt.Sprint(byID[u.Members[0]].I), nil
+		case "pkslice":
+			return byID[u.Members[0]].IL, nil
+		case "nilmap":
+			return map[string]interface{}(nil), nil
+		}
 		m := map[string]interface{}{}
 		for _, id := range u.Members {
 			a := byID[id]
@@ -515,9 +587,24 @@ func (u Unit) QueryArgs(db *gorm.DB, byID map[int]Atom) (interface{}, []interfac
 		}
 		return m, nil
 	case "struct", "empty_struct":
+		if u.Via == "slice" {
+			return StructSlice(u.Elems, byID), nil
+		}
 		ms := []Atom{}
 		for _, id := range u.Members {
 			ms = append(ms, byID[id])
+		}
+		if u.Via == "sel" {
+			// select exactly the members' columns, alternating column and field spelling
+			var cols []interface{}
+			for i, a := range ms {
+				if i%2 == 0 {
+					cols = append(cols, a.Col)
+				} else {
+					cols = append(cols, strings.ToUpper(a.Col[:1])+a.Col[1:])
+				}
+			}
+			return StructCond(ms), cols
 		}
 		return StructCond(ms), nil
 	case "expr":
@@ -644,13 +731,26 @@ func (g *Gen) GenUnit(depth int, hostile bool, allowGroup bool) Unit {
 		if form == "rawargs" && len(p.Args) == 0 {
 			form = "raw"
 		}
-		return Unit{Form: form, Tmpl: p.Tmpl, Txt: p.Txt, Args: p.Args, Named: p.Named, Tree: t}
+		u := Unit{Form: form, Tmpl: p.Tmpl, Txt: p.Txt, Args: p.Args, Named: p.Named, Tree: t}
+		if form == "named" && r.Chance(1, 3) {
+			u.Via = "sqlnamed"
+		}
+		return u
 	case "map":
-		return Unit{Form: "map", Members: g.eqAtomsDistinctCols(r.Range(1, 3), false)}
+		return g.mapUnit(r.Range(1, 3))
 	case "struct":
+		if r.Chance(1, 3) {
+			if ms := g.eqAtomsAnyValue(r.Range(1, 2)); len(ms) > 0 {
+				return Unit{Form: "struct", Via: "sel", Members: ms}
+			}
+		}
 		ms := g.eqAtomsDistinctCols(r.Range(1, 2), true)
 		if len(ms) == 0 {
-			return Unit{Form: "map", Members: g.eqAtomsDistinctCols(1, false)}
+			return g.mapUnit(1)
+		}
+		if r.Chance(1, 5) {
+			e2 := g.eqAtomsDistinctCols(1, true)
+			return Unit{Form: "struct", Via: "slice", Elems: [][]int{ms, e2}, Members: append(append([]int{}, ms...), e2...)}
 		}
 		return Unit{Form: "struct", Members: ms}
 	case "expr":
@@ -670,12 +770,79 @@ func (g *Gen) GenUnit(depth int, hostile bool, allowGroup bool) Unit {
 	return u
 }
 
+// mapUnit: a map-like unit of n members and one of the Go values that carry it.
+func (g *Gen) mapUnit(n int) Unit {
+	r := g.R
+	u := Unit{Form: "map", Members: g.eqAtomsDistinctCols(n, false)}
+	if !r.Chance(1, 2) {
+		return u
+	}
+	allStr := true
+	for _, id := range u.Members {
+		a := g.ByID[id]
+		if !(a.Op == "eq" && a.IsStr) {
+			allStr = false
+		}
+	}
+	if allStr && r.Bool() {
+		u.Via = "mapss"
+		return u
+	}
+	if len(u.Members) == 1 {
+		a := g.ByID[u.Members[0]]
+		switch {
+		case a.Col == "id" && a.Op == "eq":
+			u.Via = lib.Pick(r, []string{"pk", "pk", "pkstr", "colarg"})
+		case a.Col == "id" && a.Op == "in":
+			u.Via = lib.Pick(r, []string{"pkslice", "pkslice", "colarg"})
+		default:
+			u.Via = lib.Pick(r, []string{"colarg", "colarg", "mapii"})
+		}
+	}
+	return u
+}
+
+// eqAtomsAnyValue: up to n equality atoms on distinct non-key columns, zero values allowed, in
+// schema order (for struct conditions whose columns are selected by name).
+func (g *Gen) eqAtomsAnyValue(n int) []int {
+	byCol := map[string][]Atom{}
+	for _, a := range g.Atoms {
+		if a.Op == "eq" && a.Col != "id" {
+			byCol[a.Col] = append(byCol[a.Col], a)
+		}
+	}
+	cols := []string{}
+	for c := range byCol {
+		cols = append(cols, c)
+	}
+	sort.Strings(cols)
+	lib.Shuffle(g.R, cols)
+	if n > len(cols) {
+		n = len(cols)
+	}
+	cols = cols[:n]
+	sort.Slice(cols, func(i, j int) bool { return structOrder[cols[i]] < structOrder[cols[j]] })
+	out := []int{}
+	for _, c := range cols {
+		out = append(out, lib.Pick(g.R, byCol[c]).ID)
+	}
+	return out
+}
+
 func EmptyUnit(r *lib.Rng) Unit {
-	switch r.Intn(3) {
+	switch r.Intn(7) {
 	case 0:
 		return Unit{Form: "empty_string", Tmpl: ""}
 	case 1:
 		return Unit{Form: "empty_map"}
+	case 2:
+		return Unit{Form: "empty_map", Via: "mapss"}
+	case 3:
+		return Unit{Form: "empty_map", Via: "nilmap"}
+	case 4:
+		return Unit{Form: "empty_struct", Via: "slice"}
+	case 5:
+		return Unit{Form: "group"} // a sub-builder without conditions
 	}
 	return Unit{Form: "empty_struct"}
 }
@@ -741,9 +908,10 @@ func Shape(cs []Call) string {
 		sb.WriteString(u.Form)
 		switch u.Form {
 		case "raw", "rawargs", "named":
+			sb.WriteString(u.Via)
 			sb.WriteString(treeShape(u.Tree))
-		case "map", "struct":
-			fmt.Fprintf(&sb, "%d", len(u.Members))
+		case "map", "struct", "empty_map", "empty_struct":
+			fmt.Fprintf(&sb, "%d%s", len(u.Members), u.Via)
 		case "expr":
 			sb.WriteString(ceShape(u.CE))
 		case "group":
@@ -812,8 +980,11 @@ func atomUnit(u Unit) bool {
 	return false
 }
 
+// IsEmptyUnit: the unit adds no condition.
+func IsEmptyUnit(u Unit) bool { return emptyUnit(u) }
+
 func emptyUnit(u Unit) bool {
-	return u.Form == "empty_string" || u.Form == "empty_map" || u.Form == "empty_struct"
+	return u.Form == "empty_string" || u.Form == "empty_map" || u.Form == "empty_struct" || u.Form == "group" && len(u.Calls) == 0
 }
 
 // NotOfAndGroupNoAtom: a Not call (at any depth) whose unit is AND-combined (a group of >= 2
@@ -917,9 +1088,28 @@ func DiscoverTexts(db *gorm.DB, base func() *gorm.DB, atoms []Atom) (map[int][]s
 			rec(a.ID, base().Where(StructCond([]Atom{a})))
 			rec(a.NegID(), base().Not(StructCond([]Atom{a})))
 		}
+		if a.Op == "eq" && a.Col != "id" {
+			// struct condition with its column selected: zero values count too
+			rec(a.ID, base().Where(StructCond([]Atom{a}), a.Col))
+			rec(a.NegID(), base().Not(StructCond([]Atom{a}), a.Col))
+		}
+		if a.Col == "id" && a.Op == "eq" {
+			rec(a.ID, base().Where(a.I))
+			rec(a.NegID(), base().Not(a.I))
+			rec(a.ID, base().Where(fmt.Sprint(a.I)))
+			rec(a.NegID(), base().Not(fmt.Sprint(a.I)))
+		}
+		if a.Col == "id" && a.Op == "in" {
+			rec(a.ID, base().Where(a.IL))
+			rec(a.NegID(), base().Not(a.IL))
+		}
 	}
 	return texts, errs
 }
+
+// NoIDAtoms: keep conditions on the primary key out of GenAtoms (harnesses whose oracle relates
+// rows that differ in their key only).
+var NoIDAtoms bool
 
 // GenAtoms draws 4..7 atoms with pairwise non-prefix texts.
 func GenAtoms(r *lib.Rng, names, nicks []string) []Atom {
@@ -928,7 +1118,17 @@ func GenAtoms(r *lib.Rng, names, nicks []string) []Atom {
 	n := r.Range(4, 7)
 	for len(out) < n {
 		a := Atom{ID: len(out) + 1}
-		switch r.Intn(10) {
+		switch r.Intn(12) {
+		case 10:
+			if NoIDAtoms {
+				continue
+			}
+			a.Col, a.Op, a.I = "id", "eq", int64(r.Range(1, 8))
+		case 11:
+			if NoIDAtoms {
+				continue
+			}
+			a.Col, a.Op, a.IL = "id", "in", []int64{int64(r.Range(1, 4)), int64(r.Range(5, 9))}
 		case 0, 1:
 			a.Col, a.Op, a.I = "age", "eq", int64(r.Range(0, 5))
 		case 2:
